@@ -607,8 +607,8 @@ package connect
 //@   ensures forall j int :: {seq(res.interceptors)[j]} 0 <= j && j < |res.interceptors| ==> seq(res.interceptors)[j] != nil    // label: members-are-non-nil
 //@   loop i:
 //@     invariant 0 - 1 <= i && i < |interceptors| && unfoldFall(seq(interceptors), i) && unfoldFall(seq(interceptors), i + 1)
-//@     invariant frp(seq(chain.interceptors), |chain.interceptors|) == fall(seq(interceptors), i + 1) && unfoldFrp(seq(chain.interceptors), |chain.interceptors| - 1)
-//@     invariant forall j int :: {seq(chain.interceptors)[j]} 0 <= j && j < |chain.interceptors| ==> seq(chain.interceptors)[j] != nil
+//@     invariant frp(seq(res.interceptors), |res.interceptors|) == fall(seq(interceptors), i + 1) && unfoldFrp(seq(res.interceptors), |res.interceptors| - 1)
+//@     invariant forall j int :: {seq(res.interceptors)[j]} 0 <= j && j < |res.interceptors| ==> seq(res.interceptors)[j] != nil
 //@     decreases i + 1
 
 // Every *chain is built by newChain (the only function allocating the type) and never modified.
@@ -1196,13 +1196,14 @@ package connect
 //@ constfield grpcHandlerConn.request, grpcHandlerConn.responseWriter, grpcHandlerConn.responseHeader, grpcHandlerConn.responseTrailer, grpcHandlerConn.bufferPool, grpcHandlerConn.protobuf, grpcHandlerConn.web
 //@ macro tkey(k seq) seq = canon("Trailer:" ++ k)
 //@ func (*grpcHandlerConn).Close(hc, err) retErr
-//@   tags C02, C05, C11
+//@   tags C02, C05, C11, C19
 //@   requires hc != nil && hc.responseWriter != nil && hdrOf(hc.responseWriter) != nil && hc.request != nil && hc.request.Body != nil && hc.bufferPool != nil && hc.protobuf != nil
 //@   requires hdrOf(hc.responseWriter) != hc.responseHeader && hdrOf(hc.responseWriter) != hc.responseTrailer
 //@   requires err != nil && coded(err) ==> asErr(err).meta != hdrOf(hc.responseWriter) && asErr(err).meta != hc.responseTrailer
 //@   requires hc.web ==> envOK(hc.marshaler.envelopeWriter)
 //@   nosafety overflow
 //@   assigns everything
+//@   ensures (old(hc.web) && old(hc.wroteToBody)) == called("(*grpcMarshaler).MarshalWebTrailers", 1)   // label: web-trailers-go-into-the-body-exactly-when-the-body-has-been-started   // tags: C05, C02, C19
 //@   assert@call(grpcErrorToTrailer#1): !hc.wroteToBody ==> (forall k seq :: {mapval(hdrOf(hc.responseWriter), k)} mapdom(hc.responseHeader, k) ==> mapdom(hdrOf(hc.responseWriter), k) && mapval(hdrOf(hc.responseWriter), k) == old(rawvals(hdrOf(hc.responseWriter), k)) ++ mapval(hc.responseHeader, k))   // label: unsent-response-headers-are-sent-before-any-trailers   // tags: C11
 //@   assert@call(grpcErrorToTrailer#1): arg3 == err && (forall k seq :: {mapval(cast(arg1, "http.Header"), k)} mapdom(hc.responseTrailer, k) ==> mapdom(cast(arg1, "http.Header"), k) && mapval(cast(arg1, "http.Header"), k) == mapval(hc.responseTrailer, k))   // label: the-handler's-error-and-trailers-become-the-trailing-metadata   // tags: C11, C02
 //@   loop 1:
@@ -1616,9 +1617,10 @@ package connect
 //@   ensures called("StreamingClientConn.Send", 1) && callres("StreamingClientConn.Send", 1) != nil && !Is(callres("StreamingClientConn.Send", 1), io.EOF) ==> err == callres("StreamingClientConn.Send", 1) && res == nil   // label: a-client-side-send-failure-is-returned
 
 //@ func (*Client).newConn$1(ctx, spec) res
-//@   tags C12, C11
+//@   tags C12, C11, C10
 //@   requires deref(c) != nil && deref(c).protocolClient != nil
 //@   assigns everything
+//@   assert@call(protocolClient.NewConn#1): arg1 == ctx   // label: the-connection-runs-under-the-context-the-interceptors-passed-down   // tags: C10, C15
 //@   assert@call(protocolClient.NewConn#1): arg2.Procedure == spec.Procedure && arg2.StreamType == spec.StreamType && arg2.IsClient == spec.IsClient && arg3 != nil && fresh(arg3) && called("protocolClient.WriteRequestHeader", 1)   // label: the-connection-gets-the-spec-and-fresh-protocol-headers
 //@   assert@call(protocolClient.WriteRequestHeader#1): arg1 == streamType   // label: protocol-headers-for-this-stream-type
 
